@@ -1,5 +1,252 @@
-import GcmpyModel.Model.SplitDegree
-import GcmpyModel.Model.Cover
+import GcmpyModel.Lemmas.Loaders
+/-!
+# C06 — manual, empirical, marginal and function joint-degree loaders
+
+Model: `GcmpyModel/Model/Loaders.lean` (`manual`, `counter`, `empirical`, `product`, `rangeAB`,
+`marginalWeight`, `normalise`, `marginalDirect`, `sampledCalls`, `transpose`, `marginalSampled`,
+`functionLoader`).  Weights are exact rationals (core `Rat`); callables are arbitrary functions.
+All proofs live in `GcmpyModel/Lemmas/Loaders.lean` (`aux_*`); this file only states the properties.
+
+Everything is proved except the sampling-mode limit, which is kept as the unproved, unasserted
+proposition `marginal_sampled_limit_full`.
+-/
 namespace Gcmpy.Loaders
-theorem placeholder_C06 : True := trivial
+open Gcmpy
+
+/-! ## 1. manual loader -/
+
+/-- `JointDegreeManual`: the table is the given dictionary -/
+theorem manual_id (d : Table) : manual d = d := rfl
+
+/-! ## 2. `Counter` and the empirical loader -/
+
+/-- `Counter(jds)[k]` is the number of occurrences of `k`; absent keys are absent -/
+theorem get_counter (jds : List JD) (k : JD) :
+    Dict.get (counter jds) k = if k ∈ jds then some (jds.count k) else none :=
+  aux_get_counter jds k
+
+/-- the association list modelling the `Counter` has one entry per key -/
+theorem counter_keys_nodup (jds : List JD) : (Dict.keys (counter jds)).Nodup :=
+  aux_counter_keys_nodup jds
+
+/-- `convert_jds_to_jdd`: `jdd[k] = count(k) / len(jds)` exactly on the keys that occur -/
+theorem empirical_freq (jds : List JD) (k : JD) :
+    Dict.get (empirical jds) k =
+      if k ∈ jds then some ((jds.count k : Rat) / (jds.length : Rat)) else none :=
+  aux_empirical_freq jds k
+
+theorem empirical_nonneg (jds : List JD) : ∀ p ∈ empirical jds, 0 ≤ p.2 :=
+  aux_empirical_nonneg jds
+
+theorem empirical_sums_one (jds : List JD) (h : jds ≠ []) : ((empirical jds).map (·.2)).sum = 1 :=
+  aux_empirical_sums_one jds h
+
+theorem empirical_support (jds : List JD) (k : JD) : k ∈ (empirical jds).map (·.1) ↔ k ∈ jds :=
+  aux_empirical_support jds k
+
+/-- the empirical table has one entry per key (so it is a faithful `dict`) -/
+theorem empirical_keys_nodup (jds : List JD) : ((empirical jds).map (·.1)).Nodup :=
+  aux_empirical_keys_nodup jds
+
+/-! ## 3. ranges and `itertools.product` -/
+
+theorem mem_rangeAB (a b x : Nat) : x ∈ rangeAB a b ↔ a ≤ x ∧ x < b := aux_mem_rangeAB a b x
+
+theorem mem_product (ks : List (List Nat)) (jd : JD) :
+    jd ∈ product ks ↔ List.Forall₂ (fun x l => x ∈ l) jd ks :=
+  aux_mem_product ks jd
+
+theorem product_nodup (ks : List (List Nat)) (h : ∀ l ∈ ks, l.Nodup) : (product ks).Nodup :=
+  aux_product_nodup ks h
+
+/-! ## 4. marginal loader, direct mode
+
+Keys are `product (bounds.map fun (lo, hi) => rangeAB lo hi)` — the EXCLUSIVE ranges
+`range(kmin, kmax)` — and the normalising total is
+`Z = ((product (bounds.map fun (lo, hi) => rangeAB lo hi)).map (marginalWeight fs)).sum`. -/
+
+/-- `evaluate_prob_of_joint_degree` is the product of the marginals (a missing callable, which
+    would be an `IndexError` in Python, is modelled by the zero function) -/
+theorem marginalWeight_eq_prod (fs : List (Nat → Rat)) (k : JD) :
+    marginalWeight fs k = (k.zipIdx.map fun (d, i) => (fs.getD i (fun _ => 0)) d).prod :=
+  aux_marginalWeight_eq_prod fs k
+
+/-- the keys of the table are exactly the product of the exclusive ranges, in that order -/
+theorem marginal_direct_keys (fs : List (Nat → Rat)) (bounds : List (Nat × Nat)) (t : Table)
+    (h : marginalDirect fs bounds = .ok t) :
+    t.map (·.1) = product (bounds.map fun (lo, hi) => rangeAB lo hi) :=
+  marginalDirect_keys h
+
+/-- keys = one degree per topology, each in `[kmin, kmax)`: all inside the bounds, `kmax` excluded -/
+theorem marginal_direct_support (fs : List (Nat → Rat)) (bounds : List (Nat × Nat)) (t : Table)
+    (h : marginalDirect fs bounds = .ok t) (k : JD) :
+    k ∈ t.map (·.1) ↔
+      (k.length = bounds.length ∧ ∀ i (h : i < k.length),
+        (bounds.getD i (0, 0)).1 ≤ k[i] ∧ k[i] < (bounds.getD i (0, 0)).2) := by
+  rw [marginalDirect_keys h]; exact mem_directKeys bounds k
+
+/-- the table has one entry per key -/
+theorem marginal_direct_keys_nodup (fs : List (Nat → Rat)) (bounds : List (Nat × Nat)) (t : Table)
+    (h : marginalDirect fs bounds = .ok t) : (t.map (·.1)).Nodup := by
+  rw [marginalDirect_keys h]; exact directKeys_nodup bounds
+
+/-- `jdd[k] = Π fᵢ(kᵢ) / Z` for every key -/
+theorem marginal_direct_value (fs : List (Nat → Rat)) (bounds : List (Nat × Nat)) (t : Table)
+    (h : marginalDirect fs bounds = .ok t) (k : JD) (hk : k ∈ t.map (·.1)) :
+    Dict.get t k = some (marginalWeight fs k /
+      ((product (bounds.map fun (lo, hi) => rangeAB lo hi)).map (marginalWeight fs)).sum) := by
+  rw [marginalDirect_keys h] at hk; exact aux_marginal_direct_value h k hk
+
+theorem marginal_direct_sums_one (fs : List (Nat → Rat)) (bounds : List (Nat × Nat)) (t : Table)
+    (h : marginalDirect fs bounds = .ok t) (hne : t ≠ []) : (t.map (·.2)).sum = 1 :=
+  aux_marginal_direct_sums_one h hne
+
+theorem marginal_direct_nonneg (fs : List (Nat → Rat)) (bounds : List (Nat × Nat)) (t : Table)
+    (h : marginalDirect fs bounds = .ok t) (hf : ∀ f ∈ fs, ∀ x, 0 ≤ f x) : ∀ p ∈ t, 0 ≤ p.2 :=
+  aux_marginal_direct_nonneg h hf
+
+/-- `ZeroDivisionError` exactly when there is at least one key and the total weight is zero -/
+theorem marginal_direct_zero (fs : List (Nat → Rat)) (bounds : List (Nat × Nat)) :
+    marginalDirect fs bounds = .error .zeroDivision ↔
+      (product (bounds.map fun (lo, hi) => rangeAB lo hi) ≠ [] ∧
+       ((product (bounds.map fun (lo, hi) => rangeAB lo hi)).map (marginalWeight fs)).sum = 0) :=
+  aux_marginal_direct_zero fs bounds
+
+/-- with no key at all (some `kmin ≥ kmax`) the table is empty and nothing is raised -/
+theorem marginal_direct_empty (fs : List (Nat → Rat)) (bounds : List (Nat × Nat))
+    (h : product (bounds.map fun (lo, hi) => rangeAB lo hi) = []) :
+    marginalDirect fs bounds = .ok [] := by
+  have h' : directKeys bounds = [] := h
+  rw [marginalDirect_eq, if_pos h']
+
+/-! ## 5. marginal loader, sampling mode -/
+
+/-- `create_jdd_by_sampling` is the frequency table of the zipped per-dimension samples -/
+theorem marginal_sampled_is_empirical (cols : List (List Nat)) :
+    marginalSampled cols = empirical (transpose cols) := rfl
+
+theorem sampled_calls_length (fs : List (Nat → Rat)) (bounds : List (Nat × Nat)) (n : Nat) :
+    (sampledCalls fs bounds n).length = bounds.length :=
+  sampledCalls_length fs bounds n
+
+/-- the `i`-th `random.choices` call samples dimension `i` over its INCLUSIVE range
+    `range(kmin, kmax + 1)` with the weights of its own marginal `fs[i]`, `n` times -/
+theorem sampled_calls_aligned (fs : List (Nat → Rat)) (bounds : List (Nat × Nat)) (n i : Nat)
+    (h : i < bounds.length) :
+    (sampledCalls fs bounds n)[i]'(by rw [sampledCalls_length]; exact h) =
+      (rangeAB bounds[i].1 (bounds[i].2 + 1),
+       (rangeAB bounds[i].1 (bounds[i].2 + 1)).map (fs.getD i (fun _ => 0)),
+       n) :=
+  aux_sampled_calls_aligned fs bounds n i h
+
+/-- NOT PROVED, NOT ASSERTED — documentation of the law-of-large-numbers step ("in the limit of many
+samples") of the sampling mode.  `cols n` are the per-dimension sample columns at sample size `n`.
+If (a) every column's frequencies converge to its normalised marginal on the inclusive range and
+(b) the columns are asymptotically independent (joint row frequency minus product of column
+frequencies tends to 0) — both of which hold almost surely for the i.i.d. draws of `random.choices`,
+a probabilistic fact outside any executable model — then every entry of the sampled table converges
+to the product of the normalised marginals on the INCLUSIVE box (and to 0 off the box). -/
+def marginal_sampled_limit_full : Prop :=
+  ∀ (fs : List (Nat → Rat)) (bounds : List (Nat × Nat)) (cols : Nat → List (List Nat)),
+    -- admissible weights for `random.choices`: non-negative with a positive total per dimension
+    (∀ call ∈ sampledCalls fs bounds 0, (∀ w ∈ call.2.1, 0 ≤ w) ∧ 0 < call.2.1.sum) →
+    -- shape: one column per dimension, `n` samples each
+    (∀ n, (cols n).length = bounds.length ∧ ∀ c ∈ cols n, c.length = n) →
+    -- (a) marginal frequencies converge
+    (∀ i, i < bounds.length → ∀ x : Nat, ∀ ε : Rat, 0 < ε → ∃ N, ∀ n, N ≤ n →
+      |((((cols n).getD i []).count x : Nat) : Rat) / (n : Rat)
+        - (if x ∈ ((sampledCalls fs bounds 0).getD i ([], [], 0)).1
+           then (fs.getD i (fun _ => 0)) x / ((sampledCalls fs bounds 0).getD i ([], [], 0)).2.1.sum
+           else 0)| < ε) →
+    -- (b) asymptotic independence of the columns
+    (∀ k : JD, k.length = bounds.length → ∀ ε : Rat, 0 < ε → ∃ N, ∀ n, N ≤ n →
+      |(((transpose (cols n)).count k : Nat) : Rat) / (n : Rat)
+        - (k.zipIdx.map fun (d, i) => ((((cols n).getD i []).count d : Nat) : Rat) / (n : Rat)).prod| < ε) →
+    -- conclusion: the table converges entry-wise to the product law on the inclusive box
+    ∀ k : JD, ∀ ε : Rat, 0 < ε → ∃ N, ∀ n, N ≤ n →
+      |(Dict.get (marginalSampled (cols n)) k).getD 0
+        - (if k.length = bounds.length then
+            (k.zipIdx.map fun (d, i) =>
+              if d ∈ ((sampledCalls fs bounds 0).getD i ([], [], 0)).1
+              then (fs.getD i (fun _ => 0)) d / ((sampledCalls fs bounds 0).getD i ([], [], 0)).2.1.sum
+              else 0).prod
+           else 0)| < ε
+
+/-! ## 6. function loader -/
+
+/-- keys = the whole INCLUSIVE box `[kmin, kmax]` per topology -/
+theorem function_support (fp : JD → Rat) (bounds : List (Nat × Nat)) (k : JD) :
+    k ∈ (functionLoader fp bounds).map (·.1) ↔
+      (k.length = bounds.length ∧ ∀ i (h : i < k.length),
+        (bounds.getD i (0, 0)).1 ≤ k[i] ∧ k[i] ≤ (bounds.getD i (0, 0)).2) :=
+  aux_function_support fp bounds k
+
+/-- every entry is the callable's value, not normalised -/
+theorem function_value (fp : JD → Rat) (bounds : List (Nat × Nat)) (p : JD × Rat)
+    (h : p ∈ functionLoader fp bounds) : p.2 = fp p.1 :=
+  aux_function_value fp bounds p h
+
+theorem function_keys_nodup (fp : JD → Rat) (bounds : List (Nat × Nat)) :
+    ((functionLoader fp bounds).map (·.1)).Nodup :=
+  functionLoader_keys_nodup fp bounds
+
+/-- lookup form of `function_value` -/
+theorem function_get (fp : JD → Rat) (bounds : List (Nat × Nat)) (k : JD)
+    (hk : k ∈ (functionLoader fp bounds).map (·.1)) :
+    Dict.get (functionLoader fp bounds) k = some (fp k) :=
+  aux_function_get fp bounds k hk
+
+/-! ## 7. `load_joint_degree` = direct construction
+
+`JointDegreeDistribution.load_joint_degree` builds the loader (whose `__init__` already calls
+`create_jdd()`) and then calls `create_jdd()` once more.  For the manual loader `create_jdd` leaves the
+stored table alone; for the other deterministic loaders it recomputes the table from the constructor
+parameters only, ignoring the table already stored.  The model's loaders are pure functions of those
+parameters, so "create again on top of the constructed state" gives the same table.  The second
+`create_jdd()` is written as a function of the previously stored table. -/
+
+theorem load_eq_direct_manual (d : Table) : manual (manual d) = manual d := rfl
+
+theorem load_eq_direct_empirical (jds : List JD) :
+    (fun _stored : Table => empirical jds) (empirical jds) = empirical jds := rfl
+
+theorem load_eq_direct_marginal (fs : List (Nat → Rat)) (bounds : List (Nat × Nat)) :
+    (fun _stored : Except Err Table => marginalDirect fs bounds) (marginalDirect fs bounds)
+      = marginalDirect fs bounds := rfl
+
+theorem load_eq_direct_function (fp : JD → Rat) (bounds : List (Nat × Nat)) :
+    (fun _stored : Table => functionLoader fp bounds) (functionLoader fp bounds)
+      = functionLoader fp bounds := rfl
+
+/-! ## 8. non-vacuity -/
+
+example : empirical [[1, 0], [1, 0], [0, 2]] = [([1, 0], 2 / 3), ([0, 2], 1 / 3)] := by
+  decide +kernel
+
+/-- two topologies, bounds `(0,2)` and `(1,3)`: keys `{0,1} × {1,2}` (upper bounds excluded) -/
+example :
+    marginalDirect [fun k => if k = 0 then 1 else 3, fun k => (k : Rat)] [(0, 2), (1, 3)]
+      = .ok [([0, 1], 1 / 12), ([0, 2], 1 / 6), ([1, 1], 1 / 4), ([1, 2], 1 / 2)] := by
+  decide +kernel
+
+example : marginalDirect [fun _ => 0] [(0, 2)] = .error .zeroDivision := by decide +kernel
+
+example : marginalDirect [fun _ => 1, fun _ => 1] [(0, 2), (3, 3)] = .ok [] := by decide +kernel
+
+/-- the function loader covers the inclusive box and does not normalise -/
+example :
+    functionLoader (fun k => (k.sum : Rat) / 2) [(0, 1), (2, 3)]
+      = [([0, 2], 1), ([0, 3], 3 / 2), ([1, 2], 3 / 2), ([1, 3], 2)] := by
+  decide +kernel
+
+/-- sampling mode asks for the inclusive ranges -/
+example :
+    sampledCalls [fun k => (k : Rat), fun _ => 1 / 2] [(0, 2), (1, 2)] 5
+      = [([0, 1, 2], [0, 1, 2], 5), ([1, 2], [1 / 2, 1 / 2], 5)] := by
+  decide +kernel
+
+example : marginalSampled [[0, 1, 0, 2], [1, 1, 1, 2]]
+    = [([0, 1], 1 / 2), ([1, 1], 1 / 4), ([2, 2], 1 / 4)] := by
+  decide +kernel
+
 end Gcmpy.Loaders
